@@ -2,6 +2,13 @@
 """writes MANIFEST.json from the table below (keeps it valid and in one place)"""
 import json, os
 CHECKS = {
+ 'C13': dict(technique='lock typestate {U,L,F} + in_callback counter over all paths and calling contexts (ESP-style property simulation), capability/mechanism configuration rule',
+             text='Path- and context-exhaustive lock-discipline analysis with thread safety forced on and asserts visible: balance of lock/unlock and '
+                  'in_callback on every path, every function that reaches the project\'s own precondition marker is entered locked, no locking wrapper is '
+                  'called from locked code, application callbacks run unlocked or with in_callback>0, no unbounded wait while locked, and the shipped '
+                  'configuration really compiles the locking it advertises. Necessary for serialisation and deadlock freedom; data races on deliberately '
+                  'unlocked accessors and progress under all schedules are not decided.',
+             design='6 C13'),
  'C17': dict(technique='FILE* typestate over the CFG (R-FILE-MODE) + tmp-file/rename must-pass-through rule (R-PERSIST)',
              text='Path-exhaustive structural rule over every function that opens a file: decides the necessary clauses '
                   '"stream only used as its mode allows", "only the .tmp copy is written", "rename only after a tested flush". '
